@@ -30,6 +30,9 @@ CHECKS['C15'] = dict(cat='model_checking', tech='deviation-bounded exhaustive en
 CHECKS['C10'] = dict(cat='exploration', engine='numcheck', tech='bounded-exhaustive enumeration of number strings and structured doubles in-process, oracle = glibc strtod / exact decimal expansion with string-arithmetic half-even rounding',
       text='Acceptance: ALL strings of length <= 6 (quick) / 7 (thorough) over the 11-character alphabet 0 1 9 + - . e E ( ) x against an independent recogniser, with the refused value checked unchanged. Text to double: every mantissa of <= 3 / 4 digits with the decimal point at every position x every exponent in [-330, 310]; for binades and 7 mantissa patterns the exact value, the exact tie with the successor, tie +- one unit in the last digit; 17/19-digit spellings; 10^(9k) boundaries - all compared bit-for-bit with strtod. Double to text: init_numb / autoinit_numb over classic decimals, binade boundaries and exact decimal ties x scales x uncertainties x leading-zero limits x su rules against exact decimal expansions rounded half-even, the documented plain/scientific rule and parse-back.',
       note='glibc strtod/printf are the trusted oracle (a slice is re-derived with exact rationals). Only zero and normal-range magnitudes are judged, default rounding mode. An su that rounds to zero may be written "(0)" or omitted.', ref='C10')
+CHECKS['C09'] = dict(cat='exploration', engine='normcheck', tech='exhaustive enumeration of all Unicode code points and of all pairs/triples over an ICU-derived interesting set, in-process against the real library; ICU normaliser/case-folder as oracle',
+      text='Every Unicode code point (including lone surrogates) is used as data name, block code, frame code (through the SQL layer) and table key and must be accepted exactly when an independently written CIF 2.0 character predicate allows it, with the documented INVALID_* code otherwise; cif_normalize is checked for idempotence and for equal results on NFC / NFD / reordered-mark spellings of every code point in three contexts; all ordered pairs (thorough: triples) of about 100 interesting code points are checked for the same properties and for packet / table / block / frame / item matching (lookup, duplicate creation, removal, original spelling, most recent key spelling) exactly when the normalised forms agree; length limits 2040-2050 code points with and without supplementary characters.',
+      note='ICU 72 (Unicode 15) is the trusted oracle for normalisation and folding. Matching is defined through cif_normalize equality, as in the statement; tuples longer than 3 are not covered.', ref='C09')
 NOT_APPLICABLE = {}
 
 def main():
